@@ -18,7 +18,7 @@
    sequence), ex_sites_after_clear, ex_tracked_after_clear, ex_seek_nan, ex_iter_run. *)
 From Coq Require Import List ZArith.
 From TskVerif Require Import Base.Common C06.Model C06.Facts C06.BasicProofs C06.ListFacts C06.Valid
-  C06.CursorProofs C06.NavProofs C06.Theorems C06.IterProofs C06.FullProofs C06.CountProofs C06.SampleLists C06.Renumber.
+  C06.CursorProofs C06.NavProofs C06.Theorems C06.IterProofs C06.FullProofs C06.CountProofs C06.SampleLists C06.Renumber C06.SeekIndexTotal.
 Import ListNotations.
 Open Scope Z_scope.
 
@@ -237,3 +237,32 @@ Theorem ll_seek_total : forall ts ops x, valid_tsb ts = true ->
     ((in_range ts x /\ r = RET_NONE /\ in_interval (fst st') x = true /\ snd st' = snd st) \/
      (~ in_range ts x /\ r = RAISE_LIBRARY_ERROR /\ st' = st)).
 Proof. exact ll_seek_total_proof. Qed.
+
+(* (o) seek_index is total on EVERY integer: Tree.seek_index(i) (negative indexes wrap once:
+   wrap_index) either lands on exactly that index and leaves the other tree alone, or raises
+   IndexError and leaves both trees untouched; the low-level call (no wrap) raises
+   LibraryError (TSK_ERR_SEEK_OUT_OF_BOUNDS) instead.  Non-vacuity: ex_seek_index_wrap. *)
+Theorem seek_index_total : forall ts ops i, valid_tsb ts = true ->
+  exists st outs st' r, run core ts ops = Ok (st, outs) /\
+    py_step core ts st (OpSeekIndex i) = Ok (st', r) /\
+    ((0 <= wrap_index ts i < num_trees ts /\ r = RET_NONE /\
+      t_index (fst st') = wrap_index ts i /\ snd st' = snd st) \/
+     (~ 0 <= wrap_index ts i < num_trees ts /\ r = RAISE_INDEX_ERROR /\ st' = st)).
+Proof. exact seek_index_total_proof. Qed.
+
+Theorem ll_seek_index_total : forall ts ops i, valid_tsb ts = true ->
+  exists st outs st' r, run core ts ops = Ok (st, outs) /\
+    py_step core ts st (OpLLSeekIndex i) = Ok (st', r) /\
+    ((0 <= i < num_trees ts /\ r = RET_NONE /\ t_index (fst st') = i /\ snd st' = snd st) \/
+     (~ 0 <= i < num_trees ts /\ r = RAISE_LIBRARY_ERROR /\ st' = st)).
+Proof. exact ll_seek_index_total_proof. Qed.
+
+(* (p) The property text literally, for the op seek_index: after ANY history, seek_index(k)
+   leaves the tree in the same abstract state (index, interval, parent / edge arrays,
+   num_edges, site list) as seek_index(k) on a brand-new Tree. *)
+Theorem seek_index_is_fresh : forall ts ops k, valid_tsb ts = true -> 0 <= k < num_trees ts ->
+  exists st outs fr outs',
+    run core ts (ops ++ [OpSeekIndex k]) = Ok (st, outs) /\
+    run core ts [OpSeekIndex k] = Ok (fr, outs') /\
+    t_index (fst st) = k /\ abs (fst st) = abs (fst fr).
+Proof. exact seek_index_is_fresh_proof. Qed.
